@@ -28,13 +28,22 @@ import GqlProofs.Format.BlockLex
 -/
 open Gql Gql.Lexer Gql.Format
 
-/-- What `writeDescription` writes for a non-empty description when descriptions are on: the
-    separator that any `WriteString` would put first, `"""`, the body, `"""`, a newline. -/
-theorem C13_description_text (cfg : Cfg) (d : Bytes) (w : W) (hd : d ≠ []) (ho : cfg.omitDescription = false) :
+/-- What `writeDescription` writes for a non-empty description that a block string can represent
+    (`blockStringRepresentable`, the test the repaired formatter makes): the separator that any
+    `WriteString` would put first, `"""`, the body with every `"""` escaped, `"""`, a newline. -/
+theorem C13_description_text (cfg : Cfg) (d : Bytes) (w : W) (hd : d ≠ []) (ho : cfg.omitDescription = false)
+    (hrep : blockStringRepresentable d = true) :
     (writeDescription cfg d w).text =
-      w.text ++ lead cfg w ++ tripleQuote ++ descBody (repeatBytes cfg.indent w.indentSize) d
+      w.text ++ lead cfg w ++ tripleQuote ++ descBody (repeatBytes cfg.indent w.indentSize) (escapeTriple d)
         ++ tripleQuote ++ [10] :=
-  writeDescription_text cfg d w hd ho
+  writeDescription_text cfg d w hd ho hrep
+
+/-- Every other description is written as a quoted string with the GraphQL escapes
+    (read back byte for byte by `C12_quote_is_string_token`). -/
+theorem C13_description_text_quoted (cfg : Cfg) (d : Bytes) (w : W) (hd : d ≠ []) (ho : cfg.omitDescription = false)
+    (hrep : blockStringRepresentable d = false) :
+    (writeDescription cfg d w).text = w.text ++ lead cfg w ++ gqlQuote d ++ [10] :=
+  writeDescription_text_quoted cfg d w hd ho hrep
 
 /-- The block-string value of the rendered description is the description, for every description
     of the representable class and every indentation made of blanks. -/
